@@ -1,4 +1,5 @@
 HARNESS = "c04"
+STALE_RERUN = True   # operands also re-run as stale external polynomials (see check)
 LEVEL = "translation_validation"
 TIMEOUT = 3000
 """C04 case generator: pairs (P, Q) in Z[params][main] for resultant / psc / subresultant chains.
